@@ -131,6 +131,15 @@ def C(key, **kw):
 
 
 VIEWS = {}
+FOLDS = {}
+
+
+def FOLD(name, elem, acc, step, note=""):
+    """a spec function defined by recursion over a prefix of a sequence:
+         name(s, 0, a0) = a0;   name(s, i+1, a0) = step(acc=name(s, i, a0), e=s[i])
+    `step` is a spec expression over `acc` and `e`.  The loop rule supplies the unfolding instances for the
+    sequence being iterated (R6), exactly as for in_prefix."""
+    FOLDS[name] = {"elem": parse_ty(elem), "acc": parse_ty(acc), "step": step, "note": note}
 
 
 def ASSUME(key, view=False, **kw):
